@@ -158,7 +158,7 @@ def gen_topology(rng, big=False):
     chains = []
     for (a, b) in edges:
         key = frozenset((a, b))
-        k = rng.choice([0, 0, 1, 1, 2, 3])
+        k = rng.choice([0, 0, 1, 1, 2, 2, 3])
         if key in seen and k == 0:
             k = 1
         seen.add(key)
@@ -170,9 +170,15 @@ def gen_topology(rng, big=False):
     base, line = names[:nbase], names[nbase:]
     links, li = [], 0
     line_sites = []
+    forced = {}
     for (a, b, k) in chains:
         seq = [base[a]] + line[li:li + k] + [base[b]]
         line_sites += line[li:li + k]
+        if k >= 2 and rng.random() < 0.4:
+            # a run of consecutive FUSED sites (the whole chain, or two neighbours of it)
+            j = rng.randrange(0, k - 1)
+            for c in (line[li:li + k] if rng.random() < 0.5 else line[li + j:li + j + 2]):
+                forced[c] = 'FUSED'
         li += k
         for x, y in zip(seq, seq[1:]):
             links.append((x, y) if rng.random() < 0.5 else (y, x))
@@ -189,7 +195,7 @@ def gen_topology(rng, big=False):
             t = rng.choice(['ROADM', 'ROADM', 'ROADM', 'ILA', None, 'roadm', 'Ila', 'x'])
         nodes.append((c, t))
     for c in line_sites:
-        nodes.append((c, rng.choice(['ILA', 'ILA', 'ILA', 'FUSED', 'FUSED', None, 'ila', 'fused', 'ROADM', 'abc'])))
+        nodes.append((c, forced.get(c) or rng.choice(['ILA', 'ILA', 'ILA', 'FUSED', 'FUSED', None, 'ila', 'fused', 'ROADM', 'abc'])))
     rng.shuffle(nodes)
     return nodes, links
 
@@ -284,8 +290,10 @@ def line_hops(rng, case, ftypes):
     c = rng.choice(lines)
     out = [c]
     prev, cur = c, rng.choice(adj[c])
-    for _ in range(rng.choice([0, 1, 1, 2, 3])):
-        out.append(cur)
+    listed = rng.choice([1.0, 1.0, 0.6, 0.4])       # some routes list only some of the sites passed
+    for _ in range(rng.choice([0, 1, 1, 2, 3, 4])):
+        if rng.random() < listed:
+            out.append(cur)
         if ftypes[cur] == 'ROADM' or len(adj[cur]) != 2:
             break
         nxt = [x for x in adj[cur] if x != prev] or adj[cur]
@@ -1567,6 +1575,11 @@ def run(ctx):
             d = same(canon_net_model(line), canon_net_impl(data))
             if d:
                 ctx.corr_break('corr:Sheet.convert', d, strip(c))
+                # the model's network is the one the theorems of Props/C20.v are about: elements, parameters and wiring
+                # of an accepted workbook must be exactly these
+                ctx.violation('converted_network_differs',
+                              f'every sanity rule holds and both convert, but gnpy\'s network differs from the proved one at '
+                              f'{d[:200]}', strip(c))
             else:
                 ctx.count('corr_networks_agree')
     TM.add('coq_convert', t0)
@@ -1604,6 +1617,15 @@ def run(ctx):
             d = f'unreadable output: {type(e).__name__}: {str(e)[:120]}'
         if d:
             ctx.corr_break('corr:Sheet.read_service_sheet', d, strip(c))
+            # both build the requests but not the same ones: the row's request is not the one the sheet describes
+            import re as _re
+            mrow = _re.match(r'\[(\d+)\]\.?(\w[\w-]*)?', d)
+            k = int(mrow.group(1)) if mrow else None
+            field = (mrow.group(2) if mrow else None) or 'request'
+            key = 'service_route_differs' if field in ('route', 'loose') else 'service_request_differs'
+            row = c['services'][k] if k is not None and k < len(c['services']) else None
+            ctx.violation(key, f'Service row {k} ({row}): gnpy\'s request differs from the proved model\'s at {d[:200]}',
+                          dict(strip(c), failing_row=k))
         else:
             ctx.count('corr_service_sheets_agree')
     TM.add('coq_services', t0)
@@ -1656,6 +1678,8 @@ def run(ctx):
             d = f'unreadable output: {type(e).__name__}: {str(e)[:120]}'
         if d:
             ctx.corr_break('corr:Sheet.request_element', d, {'service_row': s})
+            ctx.violation('service_row_differs', f'Request_element builds a request that differs from the model\'s '
+                          f'(C20_service_spec) at {d[:200]}', {'service_row': s})
     TM.add('coq_requests', t0)
     ctx.extra['timing_s'] = TM.t
     ctx.assumptions += [
